@@ -32,7 +32,9 @@ from bounded.programs import (
     kind_of,
     make_thunk,
     mutated_slots,
+    raise_if_gen_crash,
     random_program,
+    safe_case,
     step_inputs,
 )
 
@@ -85,104 +87,113 @@ def _first_operand(g, rng, op):
             g.chain = False
 
 
+def _single_case(seed, tnum, k, sym, fermionic, static, op, tag):
+    rng = np.random.default_rng([seed, tnum, 1, k])
+    g = Gen(rng, sym, fermionic, static=static, dtype="complex128" if rng.random() < 0.15 else "float64")
+    _first_operand(g, rng, op)
+    if g.dead:
+        return None
+    n0 = len(g.vals)
+    if not g.try_op(op):
+        g.random_step()
+        if g.dead or not g.try_op(op):
+            return None
+    # mutate what was just produced through library in-place operations
+    new = [j for j in range(n0, len(g.vals)) if kind_of(g.vals[j]) in ("arr", "vec")]
+    g.inplace_rate = 1.0
+    names = [n for n in FOLLOW_UPS]
+    p = np.array([FOLLOW_UPS[n] for n in names], dtype=float)
+    for _ in range(int(rng.integers(1, 3))):
+        if g.dead or not new:
+            break
+        j = int(rng.choice(new))
+        for _try in range(6):
+            if g.try_op(names[int(rng.choice(len(names), p=p / p.sum()))], slot=j):
+                break
+    return {"contract": "C14.frame_single", "program": g.program(), "gen": tag}
+
+
+def _random_case(seed, tnum, k, tag):
+    rng = np.random.default_rng([seed, tnum, 2, k])
+    g = random_program(rng, SYMS[k % 5], bool((k // 5) % 2), bool(rng.integers(0, 2)), int(rng.integers(2, 6)),
+                       dtype="complex128" if rng.random() < 0.1 else "float64", weights=PROGRAM_WEIGHTS, inplace_rate=0.25)
+    if not g.steps:
+        return None
+    return {"contract": "C14.frame_program", "program": g.program(), "gen": tag}
+
+
+def _equiv_case(seed, tnum, k, sym, fermionic, static, op, tag):
+    rng = np.random.default_rng([seed, tnum, 3, k])
+    g = Gen(rng, sym, fermionic, static=static, dtype="complex128" if rng.random() < 0.15 else "float64")
+    _first_operand(g, rng, "unfuse" if (op in AFTER_FUSE or rng.random() < 0.2) else op)
+    for _ in range(int(rng.choice([0, 0, 1, 2]))):   # a derived receiver now and then
+        if not g.dead:
+            g.random_step()
+    if g.dead:
+        return None
+    n0 = len(g.steps)
+    if op in ("scale", "add", "sub", "div") and rng.random() < 0.35:
+        # BlockVector receiver
+        vecs = g.slots("vec")
+        if not vecs:
+            arrs = [j for j in g.slots("arr") if len(g.vals[j].indices) and len(g.vals[j].blocks)]
+            if arrs:
+                x = g.vals[int(rng.choice(arrs))]
+                g.emit(["construct_vector", None, g._vector_for(x, int(rng.integers(0, len(x.indices))))])
+                vecs = g.slots("vec")
+        ok = bool(vecs) and g.try_op(op, slot=int(rng.choice(vecs)))
+    else:
+        ok = g.try_op(op)
+    if not ok or g.dead or len(g.steps) == n0 or g.steps[-1][0] != op:
+        return None
+    last = g.steps[-1]
+    if last[2].get("inplace"):
+        return None
+    if op == "scale" and last[2].get("form") not in ("mul", "div", "add", "sub", "pow"):
+        return None   # reflected forms have no in-place variant
+    if op == "div" and kind_of(g.vals[last[1]]) != "vec":
+        return None   # array /= array is not offered (NotImplemented -> rebinding)
+    if op == "drop_misaligned" and last[2]["b"] == last[1]:
+        return None   # one object cannot receive both results
+    last[2].pop("via", None)
+    last[2].pop("prop", None)
+    return {"contract": "C14.inplace_equiv", "program": g.program(), "gen": tag}
+
+
+def _cells():
+    for sym in SYMS:
+        for fermionic in (False, True):
+            for static in (True, False):
+                if not (sym == "Z4" and static):
+                    yield sym, fermionic, static
+
+
 def gen_cases(tier, seed):
     tnum = 0 if tier == "quick" else 1
     # (a) targeted op + in-place follow-ups on its results
-    reps = 1 if tier == "quick" else 12
     k = 0
-    for rep in range(reps):
-        for sym in SYMS:
-            for fermionic in (False, True):
-                for static in (True, False):
-                    if sym == "Z4" and static:
-                        continue
-                    for op in TARGET_OPS:
-                        k += 1
-                        rng = np.random.default_rng([seed, tnum, 1, k])
-                        g = Gen(rng, sym, fermionic, static=static, dtype="complex128" if rng.random() < 0.15 else "float64")
-                        _first_operand(g, rng, op)
-                        if g.dead:
-                            continue
-                        n0 = len(g.vals)
-                        if not g.try_op(op):
-                            g.random_step()
-                            if g.dead or not g.try_op(op):
-                                continue
-                        # mutate what was just produced through library in-place operations
-                        new = [j for j in range(n0, len(g.vals)) if kind_of(g.vals[j]) in ("arr", "vec")]
-                        g.inplace_rate = 1.0
-                        for _ in range(int(rng.integers(1, 3))):
-                            if g.dead or not new:
-                                break
-                            j = int(rng.choice(new))
-                            names = [n for n in FOLLOW_UPS]
-                            p = np.array([FOLLOW_UPS[n] for n in names], dtype=float)
-                            for _try in range(6):
-                                name = names[int(rng.choice(len(names), p=p / p.sum()))]
-                                if g.try_op(name, slot=j):
-                                    break
-                        yield {"contract": "C14.frame_single", "program": g.program(), "gen": [tier, seed, "single", k, op]}
+    for rep in range(1 if tier == "quick" else 12):
+        for sym, fermionic, static in _cells():
+            for op in TARGET_OPS:
+                k += 1
+                tag = [tier, seed, "single", k, op]
+                yield from safe_case("C14.frame_single", tag,
+                                     lambda a=(seed, tnum, k, sym, fermionic, static, op, tag): _single_case(*a))
     # (b) random programs on shared operands
-    n = 5000 if tier == "quick" else 120000
-    for k in range(n):
-        rng = np.random.default_rng([seed, tnum, 2, k])
-        sym = SYMS[k % 5]
-        fermionic = bool((k // 5) % 2)
-        g = random_program(rng, sym, fermionic, bool(rng.integers(0, 2)), int(rng.integers(2, 6)),
-                           dtype="complex128" if rng.random() < 0.1 else "float64", weights=PROGRAM_WEIGHTS, inplace_rate=0.25)
-        if not g.steps:
-            continue
-        yield {"contract": "C14.frame_program", "program": g.program(), "gen": [tier, seed, "random", k]}
+    for k in range(5000 if tier == "quick" else 120000):
+        tag = [tier, seed, "random", k]
+        yield from safe_case("C14.frame_program", tag, lambda a=(seed, tnum, k, tag): _random_case(*a))
     # (c) in-place == out-of-place
-    reps = 3 if tier == "quick" else 30
     k = 0
-    for rep in range(reps):
-        for sym in SYMS:
-            for fermionic in (False, True):
-                for static in (True, False):
-                    if sym == "Z4" and static:
-                        continue
-                    for op in EQUIV_OPS:
-                        if op.startswith("phase_") and not fermionic:
-                            continue
-                        k += 1
-                        rng = np.random.default_rng([seed, tnum, 3, k])
-                        g = Gen(rng, sym, fermionic, static=static, dtype="complex128" if rng.random() < 0.15 else "float64")
-                        _first_operand(g, rng, "unfuse" if (op in AFTER_FUSE or rng.random() < 0.2) else op)
-                        # a derived receiver now and then
-                        for _ in range(int(rng.choice([0, 0, 1, 2]))):
-                            if not g.dead:
-                                g.random_step()
-                        if g.dead:
-                            continue
-                        n0 = len(g.steps)
-                        if op in ("scale", "add", "sub", "div") and rng.random() < 0.35:
-                            # BlockVector receiver
-                            vecs = g.slots("vec")
-                            if not vecs:
-                                arrs = [j for j in g.slots("arr") if len(g.vals[j].indices)]
-                                if arrs:
-                                    j = int(rng.choice(arrs))
-                                    x = g.vals[j]
-                                    g.emit(["construct_vector", None, g._vector_for(x, int(rng.integers(0, len(x.indices))))])
-                                    vecs = g.slots("vec")
-                            ok = bool(vecs) and g.try_op(op, slot=int(rng.choice(vecs)))
-                        else:
-                            ok = g.try_op(op)
-                        if not ok or g.dead or len(g.steps) == n0 or g.steps[-1][0] != op:
-                            continue
-                        last = g.steps[-1]
-                        if last[2].get("inplace"):
-                            continue
-                        if op == "scale" and last[2].get("form") not in ("mul", "div", "add", "sub", "pow"):
-                            continue   # reflected forms have no in-place variant
-                        if op == "div" and kind_of(g.vals[last[1]]) != "vec":
-                            continue   # array /= array is not offered (NotImplemented -> rebinding)
-                        if op == "drop_misaligned" and last[2]["b"] == last[1]:
-                            continue   # one object cannot receive both results
-                        last[2].pop("via", None)
-                        last[2].pop("prop", None)
-                        yield {"contract": "C14.inplace_equiv", "program": g.program(), "gen": [tier, seed, "equiv", k, op]}
+    for rep in range(3 if tier == "quick" else 30):
+        for sym, fermionic, static in _cells():
+            for op in EQUIV_OPS:
+                if op.startswith("phase_") and not fermionic:
+                    continue
+                k += 1
+                tag = [tier, seed, "equiv", k, op]
+                yield from safe_case("C14.inplace_equiv", tag,
+                                     lambda a=(seed, tnum, k, sym, fermionic, static, op, tag): _equiv_case(*a))
 
 
 def _snap_all(vals):
@@ -319,6 +330,7 @@ def check_equiv(d):
 
 
 def check_case(d):
+    raise_if_gen_crash(d)
     if d["contract"] == "C14.inplace_equiv":
         return check_equiv(d)
     return check_frames(d)
